@@ -846,7 +846,7 @@ func ruleText(prop string) string {
 	case "C10":
 		return "scenarios with signing configured; fault-free builds are verified with the public key over bytes reconstructed from the sink; every signer call, key-file corruption, passphrase and signature-type fault is injected one at a time; evaluations = packaging calls; non-trivial = signature verified, or fault fired; distinct = distinct (format, method/type, key kind, path, fault class) tuples"
 	case "C11":
-		return "one parsed Config per scenario; histories over {validate, get, name, package, name+package, package-fail} x five formats: all 120 orders of the five packagings, all histories of length <= 2, sampled length 3, and PRNG-drawn histories up to length 12; evaluations = operations executed; non-trivial = history with at least two operations on different formats; distinct = distinct (config hash, history) pairs"
+		return "one parsed Config per scenario; histories over {validate, get, name, package, name+package, package-fail} x five formats: all 120 orders of the five packagings, all histories of length <= 2, sampled length 3 (in one run of sixteen - probe deep3 - every history a, b, package(f) of length 3: 31 x 31 x 5), and PRNG-drawn histories up to length 12; evaluations = operations executed; non-trivial = history with at least two operations on different formats; distinct = distinct (config hash, history) pairs"
 	case "C12":
 		return "2-6 client goroutines packaging concurrently under the baton scheduler (one runs at a time; who runs next at each yield is a recorded PRNG draw) in a -race build, plus a free-running cross-check; evaluations = client packagings; non-trivial = run with at least one context switch between clients that share a Config or registry; distinct = distinct (client formats, switch sequence, yield-site trace) hashes"
 	}
